@@ -7,7 +7,10 @@
    and transactions; [step : state -> call -> state * outcome] for Open, for every exported method of *DB,
    *Snapshot, *Transaction and of iterator.Iterator (Inductive api_call; the correspondence run compares the
    enumeration with reflection on the Go types), and for "background work drains".
-   All theorems hold for every state reachable from ANY initial storage by ANY call sequence. *)
+   All theorems hold for every state reachable from ANY initial storage by ANY call sequence.
+   The first argument of step / run / run_out selects the code variant: [true] everywhere = the tree as it is (the
+   compaction goroutines start no work once the DB is in its persistent-error state); [false] = the code before
+   that repair, used only by the refutation witness of theorem 5. *)
 From Coq Require Import List NArith Bool.
 From GL Require Import Store.Lifecycle Store.LifecycleLocal Store.LifecycleProofs.
 Import ListNotations.
@@ -23,7 +26,7 @@ Print Assumptions C18_api_enumeration_complete.
       releases the lock, and the next Open succeeds and yields a new DB. *)
 Theorem C18_single_owner : forall s d db ro seek,
   reachable s -> nth_error (dbs s) d = Some db -> dmode db <> Closed ->
-  step s (COpen ro seek) = (s, ErrLocked).
+  step true s (COpen ro seek) = (s, ErrLocked).
 Proof. exact single_owner_locked. Qed.
 Print Assumptions C18_single_owner.
 
@@ -35,11 +38,11 @@ Print Assumptions C18_at_most_one_open.
 
 Theorem C18_available_after_close : forall s d db h,
   reachable s -> nth_error (dbs s) d = Some db -> dmode db <> Closed ->
-  let s' := fst (step s (CApi d h DbClose)) in
-  snd (step s (CApi d h DbClose)) = Ok /\ locked (stor s') = false /\
+  let s' := fst (step true s (CApi d h DbClose)) in
+  snd (step true s (CApi d h DbClose)) = Ok /\ locked (stor s') = false /\
   (exists db', nth_error (dbs s') d = Some db' /\ dmode db' = Closed) /\
-  forall ro seek, snd (step s' (COpen ro seek)) = Ok /\
-                  List.length (dbs (fst (step s' (COpen ro seek)))) = S (List.length (dbs s')).
+  forall ro seek, snd (step true s' (COpen ro seek)) = Ok /\
+                  List.length (dbs (fst (step true s' (COpen ro seek)))) = S (List.length (dbs s')).
 Proof. exact close_releases. Qed.
 Print Assumptions C18_available_after_close.
 
@@ -50,8 +53,8 @@ Print Assumptions C18_available_after_close.
       other than NewIterator (which returns a fresh error iterator) the whole state is unchanged. *)
 Theorem C18_closed_is_closed : forall s d db h m,
   reachable s -> nth_error (dbs s) d = Some db -> dmode db = Closed ->
-  let s' := fst (step s (CApi d h m)) in
-  snd (step s (CApi d h m)) = closed_outcome db h m /\
+  let s' := fst (step true s (CApi d h m)) in
+  snd (step true s (CApi d h m)) = closed_outcome db h m /\
   stor s' = stor s /\
   (exists db', nth_error (dbs s') d = Some db' /\ dmode db' = Closed /\ dbg db' = false) /\
   (forall d', d' <> d -> nth_error (dbs s') d' = nth_error (dbs s) d') /\
@@ -64,7 +67,7 @@ Proof. exact closed_db_methods_return_ErrClosed. Qed.
 Print Assumptions C18_closed_db_methods_return_ErrClosed.
 
 Theorem C18_double_close_harmless : forall s d db h,
-  nth_error (dbs s) d = Some db -> dmode db = Closed -> step s (CApi d h DbClose) = (s, ErrClosed).
+  nth_error (dbs s) d = Some db -> dmode db = Closed -> step true s (CApi d h DbClose) = (s, ErrClosed).
 Proof. exact double_close_harmless. Qed.
 Print Assumptions C18_double_close_harmless.
 
@@ -76,8 +79,8 @@ Print Assumptions C18_double_close_harmless.
       adds to the mutation log. *)
 Theorem C18_ro_rejects_writes_serves_reads : forall s d db h m,
   reachable s -> nth_error (dbs s) d = Some db -> is_ro (dmode db) = true ->
-  let s' := fst (step s (CApi d h m)) in
-  let o := snd (step s (CApi d h m)) in
+  let s' := fst (step true s (CApi d h m)) in
+  let o := snd (step true s (CApi d h m)) in
   (recv m = RDb -> takes_write_lock m = true -> o = ErrReadOnly /\ s' = s) /\
   (recv m = RDb -> db_read m = true -> o = Ok /\ stor s' = stor s) /\
   (m <> DbClose -> m <> ItRelease -> stor s' = stor s) /\
@@ -90,33 +93,43 @@ Print Assumptions C18_ro_rejects_writes_serves_reads.
       and their handles, Close, further read-only Opens, drains) leaves the mutation log unchanged. *)
 Theorem C18_ro_open_pure : forall s seek l,
   reachable s -> locked (stor s) = false -> forallb no_rw_open l = true ->
-  mlog (stor (run s (COpen true seek :: l))) = mlog (stor s).
+  mlog (stor (run true s (COpen true seek :: l))) = mlog (stor s).
 Proof. exact ro_open_pure. Qed.
 Print Assumptions C18_ro_open_pure.
 
-(* 5. A DB switched to read-only quiesces — PROVED ONLY UNDER THE EXCLUSION dseek = false (seek-triggered
-      compaction disabled): once the iterators obtained earlier have been released and its background work has
-      drained, no later call sequence (short of a read-write re-open) issues a mutation.
-      Full statement (does NOT hold for the code, known finding switched-ro-keeps-compacting): the same without
-      the hypothesis [dseek db = false]; it is refuted below (C18_ro_quiesces_refuted_with_seeks): after
-      SetReadOnly the compaction goroutines keep running and a plain Get schedules a seek compaction. *)
-Theorem C18_ro_quiesces_partial : forall s d db l,
-  reachable s -> nth_error (dbs s) d = Some db -> dmode db = RSwitched -> dseek db = false ->
+(* 5. A DB switched to read-only quiesces (FULL since the repair "a DB in the persistent-error state starts no flush
+      and no table compaction": db_compaction.go mCompaction / tCompaction test compPerErrC before starting work and
+      return): once the iterators obtained earlier have been released and the background work that was in flight
+      at the switch has drained, no later call sequence (short of a read-write re-open) issues a mutation --
+      whatever the seek-compaction option.  The job running at the switch may complete (it was started before
+      SetReadOnly returned; the drain stands for it); a frozen memdb whose flush had not started stays in memory
+      and in its journal.
+      The code before the repair (machine variant parks = false) is refuted below: after SetReadOnly the
+      compaction goroutines kept running and a plain Get scheduled a seek compaction
+      (C18_ro_quiesces_refuted_before_repair); the same calls on the repaired machine leave the log alone. *)
+Theorem C18_ro_quiesces : forall s d db l,
+  reachable s -> nth_error (dbs s) d = Some db -> dmode db = RSwitched ->
   iters_released db = true ->
   forallb no_rw_open l = true ->
-  let s1 := fst (step s (CDrain d)) in
-  mlog (stor (run s1 l)) = mlog (stor s1).
+  let s1 := fst (step true s (CDrain d)) in
+  mlog (stor (run true s1 l)) = mlog (stor s1).
 Proof. exact ro_quiesces. Qed.
-Print Assumptions C18_ro_quiesces_partial.
+Print Assumptions C18_ro_quiesces.
 
-Theorem C18_ro_quiesces_refuted_with_seeks :
+Theorem C18_ro_quiesces_refuted_before_repair :
   exists s d db l,
-    reachable s /\ nth_error (dbs s) d = Some db /\ dmode db = RSwitched /\ iters_released db = true /\
+    reachable_of false s /\ nth_error (dbs s) d = Some db /\ dmode db = RSwitched /\ iters_released db = true /\
     forallb no_rw_open l = true /\
-    let s1 := fst (step s (CDrain d)) in
-    mlog (stor (run s1 l)) <> mlog (stor s1).
-Proof. exact ro_quiesces_refuted_with_seeks. Qed.
-Print Assumptions C18_ro_quiesces_refuted_with_seeks.
+    let s1 := fst (step false s (CDrain d)) in
+    mlog (stor (run false s1 l)) <> mlog (stor s1).
+Proof. exact ro_quiesces_refuted_before_repair. Qed.
+Print Assumptions C18_ro_quiesces_refuted_before_repair.
+
+Example C18_ro_quiesces_same_calls_repaired :
+  let s := run true (init_state false [] 1%N) [COpen false true; CApi 0 0 DbPut; CApi 0 0 DbSetReadOnly] in
+  let s1 := fst (step true s (CDrain 0)) in
+  mlog (stor (run true s1 [CApi 0 0 DbGet; CDrain 0])) = mlog (stor s1).
+Proof. exact ro_quiesces_same_calls_repaired. Qed.
 
 (* 6. Released handles report their own errors, never touch the storage:
       released snapshot: Get / Has / NewIterator -> ErrSnapshotReleased (whatever the DB's mode, closed included);
@@ -127,34 +140,34 @@ Print Assumptions C18_ro_quiesces_refuted_with_seeks.
 Theorem C18_released_snapshot_reports : forall s d db h m,
   nth_error (dbs s) d = Some db -> nth_error (dsnaps db) h = Some true ->
   m = SnGet \/ m = SnHas \/ m = SnNewIterator ->
-  snd (step s (CApi d h m)) = ErrSnapshotReleased /\ stor (fst (step s (CApi d h m))) = stor s.
+  snd (step true s (CApi d h m)) = ErrSnapshotReleased /\ stor (fst (step true s (CApi d h m))) = stor s.
 Proof. exact released_snapshot_reports. Qed.
 Print Assumptions C18_released_snapshot_reports.
 
 Theorem C18_released_iterator_reports : forall s d db h i m,
   nth_error (dbs s) d = Some db -> nth_error (diters db) h = Some i ->
   irel i = true -> ierr i = Ok -> it_move m = true ->
-  let s' := fst (step s (CApi d h m)) in
-  snd (step s (CApi d h m)) = ErrIterReleased /\ stor s' = stor s /\
+  let s' := fst (step true s (CApi d h m)) in
+  snd (step true s (CApi d h m)) = ErrIterReleased /\ stor s' = stor s /\
   forall m', it_move m' = true \/ m' = ItValid \/ m' = ItError \/ m' = ItKey \/ m' = ItValue ->
-    step s' (CApi d h m') = (s', ErrIterReleased).
+    step true s' (CApi d h m') = (s', ErrIterReleased).
 Proof. exact released_iterator_reports. Qed.
 Print Assumptions C18_released_iterator_reports.
 
 Theorem C18_released_iterator_setreleaser_panics : forall s d db h i b,
   nth_error (dbs s) d = Some db -> nth_error (diters db) h = Some i -> irel i = true ->
-  step s (CApi d h (ItSetReleaser b)) = (s, Panics).
+  step true s (CApi d h (ItSetReleaser b)) = (s, Panics).
 Proof. exact released_iterator_setreleaser_panics. Qed.
 Print Assumptions C18_released_iterator_setreleaser_panics.
 
 Theorem C18_finished_transaction_reports : forall s d db h t m,
   nth_error (dbs s) d = Some db -> nth_error (dtxns db) h = Some t -> tdone t = true -> recv m = RTxn ->
-  snd (step s (CApi d h m)) =
+  snd (step true s (CApi d h m)) =
     match m with
     | TrWrite true | TrDiscard => Ok
     | TrCommit => if is_closed (dmode db) then ErrClosed else ErrTransactionDone
     | _ => ErrTransactionDone
-    end /\ stor (fst (step s (CApi d h m))) = stor s.
+    end /\ stor (fst (step true s (CApi d h m))) = stor s.
 Proof. exact finished_transaction_reports. Qed.
 Print Assumptions C18_finished_transaction_reports.
 
@@ -171,7 +184,7 @@ Definition ex_calls : list call :=
   [COpen false true; CApi 0 0 DbPut; CApi 0 0 DbGetSnapshot; CApi 0 0 DbNewIterator; CApi 0 0 DbGetSnapshot;
    CApi 0 1 SnRelease; CApi 0 0 DbNewIterator; CApi 0 1 ItRelease; CApi 0 0 DbOpenTransaction; CApi 0 0 TrPut;
    CApi 0 0 DbClose; COpen true true].
-Definition ex_state : state := run (init_state false [] 1%N) ex_calls.
+Definition ex_state : state := run true (init_state false [] 1%N) ex_calls.
 
 Example C18_nonvacuous :
   reachable ex_state /\
@@ -183,9 +196,9 @@ Example C18_nonvacuous :
   locked (stor ex_state) = true /\
   (* the read-write history did mutate, the read-only open did not *)
   mlog (stor ex_state) <> [] /\
-  mlog (stor ex_state) = mlog (stor (run (init_state false [] 1%N) (removelast ex_calls))) /\
+  mlog (stor ex_state) = mlog (stor (run true (init_state false [] 1%N) (removelast ex_calls))) /\
   (* outcomes on the closed DB / the read-only DB / the second Open *)
-  run_out ex_state
+  run_out true ex_state
     [CApi 0 0 DbGet; CApi 0 0 DbPut; CApi 0 0 DbClose; CApi 0 0 SnGet; CApi 0 1 SnGet; CApi 0 0 TrPut; CApi 0 0 TrCommit;
      CApi 0 1 ItNext; CApi 0 1 ItError; CApi 0 1 (ItSetReleaser false); CApi 0 0 ItNext;
      CApi 1 0 DbGet; CApi 1 0 DbPut; CApi 1 0 DbSetReadOnly; COpen false true; CApi 1 0 DbClose; COpen false true]
@@ -200,9 +213,9 @@ Proof.
   split; vm_compute; reflexivity.
 Qed.
 
-(* the exclusion of theorem 5 is satisfiable: a DB switched to read-only with seek compaction disabled *)
+(* the hypotheses of theorem 5 are satisfiable, with seek compaction ENABLED and work pending at the switch *)
 Example C18_ro_quiesces_nonvacuous :
-  let s := run (init_state false [] 1%N) [COpen false false; CApi 0 0 DbPut; CApi 0 0 DbSetReadOnly] in
-  reachable s /\ exists db, nth_error (dbs s) 0 = Some db /\ dmode db = RSwitched /\ dseek db = false /\ dbg db = true /\
+  let s := run true (init_state false [] 1%N) [COpen false true; CApi 0 0 DbPut; CApi 0 0 DbSetReadOnly] in
+  reachable s /\ exists db, nth_error (dbs s) 0 = Some db /\ dmode db = RSwitched /\ dseek db = true /\ dbg db = true /\
                             iters_released db = true.
 Proof. split; [eexists _, _, _, _; reflexivity|]. eexists; vm_compute; repeat split; reflexivity. Qed.
